@@ -6,6 +6,9 @@ R2 inbound: setattr's owner ids and the request context are translated external-
 R3 exactly once: a value that is already translated (the stored mount root entry) is not translated again
 R4 table coherence: the per-mount mapping slot is written whenever the mount slot is (allocation, over-mount, umount)
 R5 remap_id arithmetic and effective-mapping selection
+R4 (cont.) mount_with_id_mapping stores the caller's mapping itself; every modified table copy is published
+R4-arc-forward/R5-arc-override (shared with C02) Arc<FS> forwards id_remap and id_remap_with_nodeid
+R2-state-roundtrip (shared with C19.R2) per-mount mappings survive save/restore slot by slot
 """
 import re
 from pyfbr import core, vf
@@ -265,3 +268,4 @@ META = {
             "remap_id's range test and arithmetic; per-mount-then-global selection.",
     "note": "Shares C07.R2 (conversion coverage). Not decided: numeric values at run time; pseudo-directory owners (observation in DESIGN.md).",
 }
+META["text"] += " " + "Also: Arc<FS> forwards both id_remap methods; mount_with_id_mapping stores the caller's mapping; mappings survive save/restore slot by slot (C19.R2)."
